@@ -14,6 +14,10 @@ from .. import env, hx
 from fractions import Fraction as Fr
 
 D = datetime.datetime
+
+
+class Stamp(datetime.datetime):
+    """a datetime subclass, as pandas.Timestamp / pendulum.DateTime / freezegun's FakeDatetime are"""
 ORD0 = datetime.date(1900, 1, 1).toordinal()
 ORDN = datetime.date(9999, 12, 31).toordinal()
 MARCH1 = D(1900, 3, 1)
@@ -210,7 +214,8 @@ class Check(BaseCheck):
                 else:
                     forms += ['%s-%s' % (A, hx.numlit(-nn)), '%s+(-%s)' % (A, hx.numlit(-nn))]
                 forms.append('d_a+n_n')
-                e.bind(d_a=a, n_n=nn)
+                # a host's date-times are often instances of a datetime subclass (pandas.Timestamp, pendulum, freezegun): same instant, same serial
+                e.bind(d_a=(Stamp(a.year, a.month, a.day) if rnd.random() < 0.3 else a), n_n=nn)
                 for f in forms:
                     r = e.raw(f)
                     rec.case()
@@ -244,7 +249,11 @@ class Check(BaseCheck):
             a, b = a.replace(microsecond=0), b.replace(microsecond=0)
         sa, sb = serial_of(a), serial_of(b)
         fa, fb = sa.numerator // sa.denominator, sb.numerator // sb.denominator
-        e.bind(d_a=a, d_b=b)
+        if rnd.random() < 0.3:
+            e.bind(d_a=Stamp(a.year, a.month, a.day, a.hour, a.minute, a.second, a.microsecond), d_b=Stamp(b.year, b.month, b.day, b.hour, b.minute, b.second, b.microsecond))
+            rec.count('datetime_subclass_operands')
+        else:
+            e.bind(d_a=a, d_b=b)
         MS = Fr(2, 10 ** 8)
 
         def num(f, what, *accepted):
